@@ -267,6 +267,17 @@ def replay_conserve(chk, rs, c, variants):
                 if abs(mconc - wantc) > TOL[prec] * scale:
                     _viol(chk, rs, c, "mean_conc", "mean concentration %.12g at slot %d (node %d), expected bg - meanflux*R = %.12g" % (mconc, k, node, wantc), **extra)
                     return
+            # the same budget when a height is requested more than once in one call ([b, a, ..., b, a]): every returned slice is
+            # an output height of the property (round 17: a node -> slot dictionary gave the mean mode to the last duplicate only)
+            lvd = [c["lv"][-1]] + list(c["lv"]) + [c["lv"][0]]
+            _, conc_d, flx_d = rs.solve3(q, kw, srf_bg_conc=bg, levels=lvd)
+            for k, node in enumerate(lvd):
+                want = 1.0 / N if c["fp"] else float(np.mean(q))
+                R = (z[node] - z[0]) / prof[4][-1] if c["an"] else resistance(z, prof[4], node)
+                mflx, mconc = float(np.mean(flx_d[k])), float(np.mean(conc_d[k]))
+                if abs(mflx - want) > TOL[prec] * max(float(np.mean(np.abs(flx_d[k]))), abs(want), 1e-300) or abs(mconc - (bg - want * R)) > TOL[prec] * max(float(np.mean(np.abs(conc_d[k]))), abs(bg - want * R), abs(want * R), 1e-300):
+                    _viol(chk, rs, c, "mean_conc", "levels %s (a height requested twice): mean flux %.12g / mean concentration %.12g at slot %d (node %d), expected %.12g / bg - meanflux*R = %.12g" % (lvd, mflx, mconc, k, node, want, bg - want * R), **extra)
+                    return
             # the same budget for sources of very small magnitude (a trace-gas flux of 1e-9, 1e-13 in SI units): the identities
             # are homogeneous, no absolute threshold may enter
             if not c["fp"]:
@@ -519,6 +530,16 @@ def replay_translate(chk, rs, c, variants):
                 if not (_cmp(chk, rs, c, "recentre", "flux", fr, want_f, prec, "meas_pt at cell (%d,%d) must move that cell to the domain centre" % (dj, di), **extra)
                         and _cmp(chk, rs, c, "recentre", "conc", pr, want_p, prec, "meas_pt at cell (%d,%d) must move that cell to the domain centre" % (dj, di), **extra)):
                     return
+                # the same point named by its negative periodic aliases (x - X, y) and (x - X, y - Y): on the periodic domain
+                # (halo 0) they are the same cell, so the output must be re-centred on it all the same (round 17: a guard
+                # `xm + ym > 0` skipped the re-centring for points whose coordinates sum to <= 0)
+                X, Y = kw["domain"][0], kw["domain"][1]
+                for mp in ((di * (X / nx) - X, dj * (Y / ny)), (di * (X / nx) - X, dj * (Y / ny) - Y), (di * (X / nx), dj * (Y / ny) - Y)):
+                    _, pa, fa = rs.solve3(q, kw, meas_pt=mp)
+                    what = "meas_pt (%.17g, %.17g), a periodic alias of cell (%d,%d), must move that cell to the domain centre" % (mp[0], mp[1], dj, di)
+                    if not (_cmp(chk, rs, c, "recentre", "flux", fa, want_f, prec, what, **extra)
+                            and _cmp(chk, rs, c, "recentre", "conc", pa, want_p, prec, what, **extra)):
+                        return
                 # the same on lengths that are not exactly representable (1200/36-like cell sizes): whole-cell shifts whose
                 # quotient need not evaluate to the integer in floating point
                 for sfac in (1200.0 / 36.0 / (c["ax"] * rs.U), 0.1 / (c["ax"] * rs.U)):
